@@ -46,7 +46,7 @@ func newURLTable(seed int64) *urlTable {
 	for i, k := range t.keys {
 		t.base[k] = lay[i]
 	}
-	t.variants = []string{"plain", "userq", "user", "query", "pipeq"}
+	t.variants = []string{"plain", "userq", "user", "query", "pipeq", "longq"}
 	return t
 }
 
@@ -62,6 +62,8 @@ func (t *urlTable) str(k string, v int) string {
 		q = "?a=b&c=d"
 	case "pipeq":
 		q = "?f=a|b"
+	case "longq": // a long signed query: the rendered URL (and any cookie minted from it) exceeds 4096 bytes
+		q = "?sig=" + strings.Repeat("0123456789abcdef", 280)
 	}
 	return fmt.Sprintf("%s://%s%s%s%s", b[0], user, b[1], b[2], q)
 }
@@ -227,10 +229,13 @@ func newRRSubject(cfg M, seed int64) *rrSubject {
 	return s
 }
 
-func (s *rrSubject) upsert(u *url.URL, w int) error {
+func (s *rrSubject) upsert(u *url.URL, w int, more ...int) error {
 	var o []roundrobin.ServerOption
 	if w >= 0 {
 		o = append(o, roundrobin.Weight(w))
+	}
+	for _, x := range more { // further options of the same call (a negative weight makes the call fail)
+		o = append(o, roundrobin.Weight(x))
 	}
 	if s.rb != nil {
 		return s.rb.UpsertServer(u, o...)
@@ -299,6 +304,11 @@ func runRR(sc Scenario, tr *Trace, seed int64) {
 				v = pv
 			}
 			varOf[k] = v
+			if _, bad := st["w2"]; bad { // a call with several options, the last of which is rejected
+				err := s.upsert(s.tab.url(k, v), w, num(st, "w2"))
+				tr.Emit(M{"e": "UpsertBad", "k": k, "v": v, "w": w, "err": err != nil, "members": s.members()})
+				continue
+			}
 			err := s.upsert(s.tab.url(k, v), w)
 			tr.Emit(M{"e": "Upsert", "k": k, "v": v, "w": w, "err": err != nil, "members": s.members()})
 		case "remove":
